@@ -36,14 +36,20 @@ def run(ctx):
         ctx.exec_validate(exe, progs[b:b + 8000], lambda p: p, "IpcLifeTrace.tla", "IpcLifeTrace.cfg", nshards=4,
                           timeout=1500, label="x03-%d" % (b // 8000), harness_args=["--svc-stats"])
     # census of what was read (guards against a vacuous run)
-    n = act = clo = 0
+    n = act = clo = nev = 0
     for tr in glob.glob(os.path.join(ctx.work, "x03-*.ndjson")):
         for line in open(tr):
+            nev += 1
             m = re.match(r'\{"e":"SvcStats","a":\[(-?\d+),(-?\d+)\]', line)
             if m:
                 n += 1
                 act += int(m.group(1)) > 0
                 clo += int(m.group(2)) > 0
+    # no closed model is explored here: the states / transitions are the steps of the recorded runs that TLC matched
+    # against IpcLife's actions (one state per recorded event)
+    ctx.cov["states"] += nev
+    ctx.cov["transitions"] += nev
+    ctx.cov["states_are"] = "recorded events matched by TLC (trace validation), not states of a closed model"
     ctx.cov["svc_stats_read"] = n
     ctx.cov["svc_stats_read_with_active_connections"] = act
     ctx.cov["svc_stats_read_with_closed_connections"] = clo
